@@ -675,7 +675,7 @@ impl Monitor for Parsing {
     }
     fn streams(&self, tier: Tier, budget: f64) -> Vec<Stream> {
         let (n_enum, n_rand, n_bytes) = match tier {
-            Tier::Quick => (1_500, 60_000, 15_000),
+            Tier::Quick => (4_000, 200_000, 50_000),
             Tier::Thorough => (40_000, 2_500_000, 500_000),
         };
         let mut v = vec![
